@@ -385,15 +385,12 @@ pub proof fn lemma_C04_references_by_name_fallback(v: NavV, uri: Uri, line: u32,
     requires references_post(v, uri, line, ch, r), refs_name(v, uri, line, ch) is Some, refs_def(v, uri, line, ch) is None,
     ensures exists|ks: Seq<PV>| enumerates(ks, v.uses)
         && (uses_fit(#[trigger] refs_by_name(v.uses, ks, refs_name(v, uri, line, ch)->0)) ==>
-            opt_vec_view(r) == nonempty(ref_locs(v.uc, refs_by_name(v.uses, ks, refs_name(v, uri, line, ch)->0), None)))
+            opt_vec_view(r) == locs_of_sel(v.uc, None, refs_by_name(v.uses, ks, refs_name(v, uri, line, ch)->0)))
 {
     let fl = choose|fl: Seq<UseV>| #[trigger] references_post_fl(v, uri, line, ch, r, fl);
     let n = refs_name(v, uri, line, ch)->0;
     let ks = choose|ks: Seq<PV>| enumerates(ks, v.uses) && fl == #[trigger] refs_by_name(v.uses, ks, n);
-    assert(enumerates(ks, v.uses));
-    if uses_fit(refs_by_name(v.uses, ks, n)) {
-        if fl.len() > 0 { lemma_ref_locs_filter_map(v.uc, fl, None); }
-    }
+    assert(enumerates(ks, v.uses) && fl == refs_by_name(v.uses, ks, n));
 }
 
 /// every definition is filed under its own name (index well-formedness, A7)
